@@ -30,6 +30,13 @@ def setup(J):
                             else:
                                 mj.pop("save_final", None); mj.pop("_first", None)
                             jobs.append(mj)
+                            if size == 1:
+                                # the producer walks its out-IPs in map order: the other order too
+                                oj = copy.deepcopy(mj)
+                                oj["id"] += "-mo1"
+                                oj["force_all"] = 1
+                                oj.pop("save_final", None); oj.pop("_first", None)
+                                jobs.append(oj)
             # deeper delay bound on the smallest scenario (the consumer side needs several hand-offs in a row to
             # overtake the producer between two of its steps)
             jobs.append({"id": "C17-n1-s0-m2-delay3", "prop": "C17", "kind": "stream", "mode": "delay", "delay": 3, "budget": J.budget(tier, 40, 600), "oracles": [], "events_dep": False, "force_all": -1,
